@@ -636,6 +636,19 @@ func ruleKRest(w *World, r *Report) {
 						}
 					}
 					return len(x.Edges) > 0
+				case *ssa.Const:
+					return x.Value == nil // the zero value of a named result on the error path
+				case *ssa.UnOp:
+					// a named result: everything ever stored in it
+					if a, ok := x.X.(*ssa.Alloc); ok && x.Op == token.MUL {
+						sts := cellStores(a)
+						for _, st := range sts {
+							if !fromGet(st.Val, d+1) {
+								return false
+							}
+						}
+						return true
+					}
 				}
 				return false
 			}
@@ -785,6 +798,35 @@ func (w *World) originFreeVar(v ssa.Value) *ssa.FreeVar {
 					}
 				}
 			}
+		case *ssa.Parameter:
+			// a parameter of a helper function: what its callers pass — the callers
+			// inside the implementation being judged when one is set (originScope)
+			h := x.Parent()
+			if h == nil || h.Parent() != nil || !w.inPkg(h) {
+				return nil
+			}
+			idx := -1
+			for i, q := range h.Params {
+				if q == x {
+					idx = i
+				}
+			}
+			n := w.CG.Nodes[h]
+			if idx < 0 || n == nil {
+				return nil
+			}
+			for _, e := range n.In {
+				site, ok := e.Site.(*ssa.Call)
+				if !ok || idx >= len(site.Call.Args) {
+					continue
+				}
+				if w.originScope != nil && rootFn(site.Parent()) != w.originScope {
+					continue
+				}
+				if f := walk(site.Call.Args[idx], d+1); f != nil {
+					return f
+				}
+			}
 		case *ssa.Call:
 			if x.Call.IsInvoke() {
 				return walk(x.Call.Value, d+1)
@@ -827,13 +869,86 @@ func ruleKPre(w *World, r *Report) {
 		r.bad("ANCHOR", "K-PRE", "", "no function obtains patterns from the cache")
 		return
 	}
-	isGetter := func(f *ssa.Function) bool {
-		for _, g := range getters {
-			if g == f {
-				return true
+	// getter-like functions and the parameter that carries the pattern: the
+	// functions that ask the cache, and (transitively) package functions that
+	// hand one of their own string parameters on to such a function
+	patIdx := map[*ssa.Function]int{}
+	for _, g := range getters {
+		idx := -1
+		for i, p := range g.Params {
+			if bt, ok := p.Type().Underlying().(*types.Basic); ok && bt.Kind() == types.String {
+				idx = i
 			}
 		}
-		return false
+		if idx >= 0 {
+			patIdx[g] = idx
+		}
+	}
+	for changed := true; changed; {
+		changed = false
+		for _, f := range w.AllFuncs {
+			if _, done := patIdx[f]; done || f.Parent() != nil {
+				continue
+			}
+			eachInstr(f, false, func(_ *ssa.Function, in ssa.Instruction) {
+				c, ok := in.(*ssa.Call)
+				if !ok || in.Parent() != f {
+					return
+				}
+				gi, ok := patIdx[c.Call.StaticCallee()]
+				if !ok || gi >= len(c.Call.Args) {
+					return
+				}
+				// the wrapper asks on every path: the inner call dominates every
+				// normal return, and a failure reported by it is not swallowed (the
+				// wrapper panics or returns a non-nil error under it)
+				for _, b := range f.Blocks {
+					if _, ok := normalReturn(b); ok && !(c.Block() == b || c.Block().Dominates(b)) {
+						return
+					}
+				}
+				for _, u := range uses(c) {
+					ex, ok := u.(*ssa.Extract)
+					if !ok || !isErrorType(ex.Type()) {
+						continue
+					}
+					for _, b := range f.Blocks {
+						ret, ok := normalReturn(b)
+						if !ok || !w.underNonNilTest(ex, b) {
+							continue
+						}
+						if len(ret.Results) == 0 {
+							return
+						}
+						last := ret.Results[len(ret.Results)-1]
+						if !isErrorType(last.Type()) || !(w.nonNilByConstruction(last, b) || sameValue(last, ex)) {
+							return
+						}
+					}
+				}
+				if p, ok := resolve(strip(c.Call.Args[gi])).(*ssa.Parameter); ok && p.Parent() == f {
+					for i, q := range f.Params {
+						if q == p {
+							if _, done := patIdx[f]; !done {
+								patIdx[f] = i
+								changed = true
+							}
+						}
+					}
+				}
+			})
+		}
+	}
+	isGetter := func(f *ssa.Function) bool {
+		_, ok := patIdx[f]
+		return ok
+	}
+	patArgOf := func(c *ssa.Call) ssa.Value {
+		i := patIdx[c.Call.StaticCallee()]
+		if i < len(c.Call.Args) {
+			return c.Call.Args[i]
+		}
+		return nil
 	}
 	// regex factories and their pattern parameter
 	type fac struct {
@@ -847,7 +962,12 @@ func ruleKPre(w *World, r *Report) {
 			if !ok || !isGetter(c.Call.StaticCallee()) {
 				return
 			}
-			fv := w.originFreeVar(c.Call.Args[0])
+			if cl.Parent() == nil {
+				return // not a closure built by a factory
+			}
+			w.originScope = rootFn(cl)
+			fv := w.originFreeVar(patArgOf(c))
+			w.originScope = nil
 			if fv == nil {
 				r.undec("K-PRE", fnName(cl)+":pattern-origin", w.instrPos(c), "cannot trace the pattern to a captured argument")
 				return
@@ -885,22 +1005,30 @@ func ruleKPre(w *World, r *Report) {
 					return
 				}
 				// argument: X.Val.(string) where X is patArg asserted to a constant query
-				base := w.constQueryBase(c.Call.Args[0])
+				if c.Parent() != caller {
+					return
+				}
+				base := w.constQueryBase(patArgOf(c))
 				if base == nil || !sameValue(base, patArg) {
 					why = "a pattern is compiled, but not the one passed to " + f.fn.Name()
 					return
 				}
-				ta := w.constQueryAssert(c.Call.Args[0])
+				ta := w.constQueryAssert(patArgOf(c))
 				if ta == nil || !instrDominates(ta, site) || !w.underOkEdge(ta, c.Block()) {
 					why = "the precheck does not precede the construction of the function on the constant-pattern path"
 					return
 				}
 				// error outcome returns a non-nil error
+				var errVals []ssa.Value
+				if isErrorType(c.Type()) {
+					errVals = append(errVals, c) // a helper that returns only the error
+				}
 				for _, u := range uses(c) {
-					ex, ok := u.(*ssa.Extract)
-					if !ok || !isErrorType(ex.Type()) {
-						continue
+					if ex, ok := u.(*ssa.Extract); ok && isErrorType(ex.Type()) {
+						errVals = append(errVals, ex)
 					}
+				}
+				for _, ex := range errVals {
 					for _, b := range caller.Blocks {
 						ret, ok := normalReturn(b)
 						if !ok {
